@@ -194,6 +194,9 @@ func runModels(t *testing.T) {
 			var args []any
 			if m.gen != nil && rapid.IntRange(0, 3).Draw(t, "tailored") > 0 {
 				in, args = m.gen(t)
+				if len(args) > m.arity {
+					args = args[:m.arity]
+				}
 			} else {
 				in = generic.Draw(t, "in")
 				args = make([]any, m.arity)
